@@ -37,7 +37,9 @@ structure SeekLegal (s : SeekOracle) (src : Bytes) : Prop where
   data_some : ∀ pos d, pos < src.length → s.data pos = some d →
                 pos ≤ d ∧ d < src.length ∧ (∀ i, pos ≤ i → i < d → ZeroAt src i)
   data_none : ∀ pos, pos < src.length → s.data pos = none → ∀ i, pos ≤ i → ZeroAt src i
-  hole_some : ∀ d h, d < src.length → s.hole d = some h → d < h ∧ h ≤ src.length
+  /-- only at positions SEEK_DATA returned (the only ones `next_sparse_segments` asks about): Linux
+  `SEEK_HOLE` answers the position itself when it already lies in a hole -/
+  hole_some : ∀ pos d h, pos < src.length → s.data pos = some d → s.hole d = some h → d < h ∧ h ≤ src.length
   hole_eof  : ∀ d, src.length ≤ d → s.hole d = none
 
 /-- A concrete layout describes `src`: segments sorted, disjoint, non-empty, inside the file, and every
